@@ -89,6 +89,8 @@ def build(cfg, events):
                     stt = "U"
                 outs.append([i, stt, p1 - p0, p1, p1 - p0, bool(visited), len(evs)])
             rec["outcomes"] = outs
+            # completed surveys as the survey_site wrapper saw them (site, date of the call)
+            rec["completed_reports"] = [[o[0], list(rec["date"])] for o in outs if o[1] == "C"]
             if kind == "followup":
                 rec["flags"] = sorted(int(x) for x in flags)
                 rec["planners"] = sorted([int(s), r] for s, r in pls)
@@ -150,7 +152,8 @@ def analyse(ctx, prop, cfg, res, oracle):
     """conformance + oracles for every schedule of every (program, simulation)"""
     key = {"seed_cfg": cfg.get("_verif_seed"), "ndays": res.ndays}
     if res.rc != 0:
-        ctx.note(f"whole-run configuration {key} ended with rc={res.rc}: {res.log[-300:]}")
+        # never a silent skip: a crashing whole run is a broken obligation (the component stages go on searching)
+        ctx.broke(f"{prop}: whole-run configuration {key} crashed (rc={res.rc})", res.log[-1500:])
         ctx.count("wholerun_rc_nonzero")
         return
     batches, metas = [], []
@@ -189,7 +192,13 @@ def analyse(ctx, prop, cfg, res, oracle):
         ctx.traces += 1
         ctx.evaluations += 1
         ctx.count("wholerun_days", len(trace))
-        oracle(ctx, case, static, trace)
+        try:
+            oracle(ctx, case, static, trace)
+        except Exception as e:
+            import traceback
+            ctx.broke(f"{prop}: oracle could not evaluate a whole-run trace ({type(e).__name__})",
+                      str(case.get("wholerun")) + "\n" + traceback.format_exc()[-1200:])
+            continue
         if case["kind"] == "stationary" and prop == "C06":
             stationary_workable_oracle(ctx, case["wholerun"], m, info)
         if any(r["issued"] for r in trace):
@@ -214,7 +223,7 @@ def configs(ctx, n):
 def run_all(ctx, prop, oracle):
     from harness import wholerun as W
 
-    cfgs = configs(ctx, ctx.pick(2, 10))
+    cfgs = configs(ctx, ctx.pick(1 if prop == "C07" else 2, 10))   # C07 quick runs two more in mode_stage
 
     def one(cfg):
         return cfg, W.run_config(cfg)
@@ -229,16 +238,65 @@ def run_all(ctx, prop, oracle):
     ctx.count("wholerun_configs", len(cfgs))
 
 
+def mode_stage(ctx, prop, oracle, n):
+    """execution mode: the same generated scenario (inputs and generator folder reused) in debug mode and in a
+    process pool with two simulations per program; the schedule event streams of every (program, simulation)
+    must be identical, and the pool traces go through conformance + oracle as well"""
+    import json
+    import shutil
+    import tempfile
+    from harness import wholerun as W
+
+    for _ in range(n):
+        seed = ctx.rng.randrange(1 << 30)
+        rng = random.Random(seed)
+        cfg = W.make_config(rng, ndays=120 if ctx.quick else rng.choice([120, 200]),
+                            n_sites=4 if ctx.quick else rng.randint(4, 7), n_sims=2)
+        cfg["_verif_seed"] = seed
+        wd = tempfile.mkdtemp(prefix="ldarverif_mode_")
+        try:
+            a = W.run_config(cfg, debug=True, workdir=wd)
+            b = W.run_config(cfg, debug=False, processes=2, workdir=wd, keep_inputs=True)
+            if a.rc != 0 or b.rc != 0:
+                ctx.broke(f"{prop}: whole-run configuration crashed (debug rc={a.rc}, pool rc={b.rc})",
+                          (a.log if a.rc else b.log)[-1500:])
+                continue
+
+            def key(tr):
+                return {(t["prog"], t["sim"]): [e for e in t["events"] if e[0] in ("sched", "request", "sstate")]
+                        for t in tr}
+
+            ka, kb = key(a.trace), key(b.trace)
+            for k in sorted(set(ka) | set(kb)):
+                ctx.evaluations += 1
+                ctx.count("mode_pairs_compared")
+                if json.dumps(ka.get(k)) != json.dumps(kb.get(k)):
+                    x, y = ka.get(k) or [], kb.get(k) or []
+                    first = next((i for i, (u, v) in enumerate(zip(x, y)) if u != v), min(len(x), len(y)))
+                    ctx.violate(prop + ":mode:schedule-differs-between-debug-and-pool",
+                                f"program {k[0]} simulation {k[1]}: schedule events differ from event {first} on "
+                                f"({str(x[first:first + 1])[:200]} vs {str(y[first:first + 1])[:200]})",
+                                {"wholerun": {"cfg_seed": seed, "mode": True}, "case": {"wholerun": {"cfg_seed": seed}}})
+            analyse(ctx, prop, cfg, b, oracle)
+        finally:
+            shutil.rmtree(wd, ignore_errors=True)
+
+
 def run_c07(ctx):
     from harness.props import c07
 
-    run_all(ctx, "C07", lambda c, case, static, trace: c07.oracle_trace(c, case, trace, static=static))
+    orc = lambda c, case, static, trace: c07.oracle_trace(c, case, trace, static=static)  # noqa: E731
+    run_all(ctx, "C07", orc)
+    mode_stage(ctx, "C07", orc, ctx.pick(1, 3))
 
 
 def run_c06(ctx):
     from harness.props import c06
 
-    run_all(ctx, "C06", lambda c, case, static, trace: c06.oracle_trace(c, case, static, trace))
+    orc = lambda c, case, static, trace: c06.oracle_trace(c, case, static, trace)  # noqa: E731
+    run_all(ctx, "C06", orc)
+    if not ctx.quick:
+        mode_stage(ctx, "C06", orc, 2)
 
 
 def _replay(ctx, prop, inp):
@@ -246,6 +304,27 @@ def _replay(ctx, prop, inp):
 
     w = inp.get("wholerun") or inp.get("case", {}).get("wholerun")
     seed = w.get("cfg_seed", w.get("seed_cfg"))
+    if w.get("mode"):
+        # re-run the debug / pool comparison of that configuration
+        class _R:
+            def __init__(self, s_):
+                self.s = s_
+
+            def randrange(self, *_a):
+                return self.s
+        real_rng, ctx.rng = ctx.rng, _R(seed)
+        try:
+            if prop == "C07":
+                from harness.props import c07
+                mode_stage(ctx, prop, lambda c, case, static, trace: c07.oracle_trace(c, case, trace, static=static), 1)
+            else:
+                from harness.props import c06
+                mode_stage(ctx, prop, lambda c, case, static, trace: c06.oracle_trace(c, case, static, trace), 1)
+        finally:
+            ctx.rng = real_rng
+        for v in ctx.violations:
+            print("oracle:", v["signature"], "-", v["what"])
+        return 1 if ctx.violations else 0
     rng = random.Random(seed)
     cfg = W.make_config(rng, ndays=rng.choice([150, 250, 400, 500]), n_sites=rng.randint(4, 9))
     cfg["_verif_seed"] = seed
